@@ -18,7 +18,8 @@ def find_args(case):
         a += ["-mindepth", str(case["mind"])]
     if case.get("maxd") is not None:
         a += ["-maxdepth", str(case["maxd"])]
-    if case.get("post"):
+    # -depth is a global option wherever it stands: before the expression, or after it (case["post_late"])
+    if case.get("post") and not case.get("post_late"):
         a.append("-depth")
     a.append("-sorted")
     a.append("-print0")
@@ -29,6 +30,8 @@ def find_args(case):
                 a.append("-o")
             a += ["-name", nm.decode()]
         a += [")", "-prune"]
+    if case.get("post") and case.get("post_late"):
+        a.append(case["post_late"])
     return a
 
 
